@@ -185,8 +185,17 @@ class LasReader:
                         extended=True,
                     )
                 else:
-                    # For this to work, we assume that the first evlr
-                    # start just after the last point
+                    # We are just after the last point: the first evlr generally
+                    # starts here, bytes that lie before it are skipped
+                    gap = self.header.start_of_first_evlr - (
+                        self.header.offset_to_point_data
+                        + self.header.point_count * self.header.point_format.size
+                    )
+                    while gap > 0:
+                        skipped = self.point_source.source.read(gap)
+                        if not skipped:
+                            break
+                        gap -= len(skipped)
                     self.header.evlrs = VLRList.read_from(
                         self.point_source.source,
                         self.header.number_of_evlrs,
